@@ -76,6 +76,8 @@ def histories(run, drv, n_hist, n_events, scratch):
                 run.count("event.unlock", "accepted")
             if ev[0] == "mut":
                 run.count("event.mut", f"{ev[5][0]}:{out_i.split(':')[0]}")
+            if ev[0] == "mutp":
+                run.count("event.mut_nested", f"{ev[6][0]}:{out_i.split(':')[0]}")
             case = {"history": hno, "step": k, "event": H.ev_sx(ev), "prefix": [H.ev_sx(e) for e in evs[:k + 1]]}
             run.case(("hist", hno, k), nontrivial=True)
             # the property oracle runs on every real step (it does not look at the model)
@@ -111,11 +113,14 @@ def hist_oracle(run, case, evs, ia, before):
         run.oracle_ok("history")
         return
     pv = {r[0]: r for r in prev[1] if r != "dead"}
-    if ev[0] == "mut" and ev[5][0] != "write":
-        i = ev[1]
-        if i in pv and pv[i][1] == "L" and i in nv and [e[:3] for e in pv[i][4]] != [e[:3] for e in nv[i][4]]:
-            run.oracle_fail("history", case, f"entries of locked node {i} changed: {pv[i][4]} -> {nv[i][4]}", f"hist:{ev[3]}")
-            return
+    # (b) whatever the call (and whichever object it is made on): the entries of a node that reported locked before the event are
+    # the same afterwards (storage conversions are the documented exception; `unlock_` changes flags, not entries)
+    if ev[0] not in ("memmap", "share"):
+        for i, r in pv.items():
+            if r[1] == "L" and i in nv and [e[:3] for e in r[4]] != [e[:3] for e in nv[i][4]]:
+                meth = ev[3] if ev[0] == "mut" else (ev[4] if ev[0] == "mutp" else ev[0])
+                run.oracle_fail("history", case, f"entries of locked node {i} changed through {ev[0]} on node {ev[1] if len(ev) > 1 else '-'}: {r[4]} -> {nv[i][4]}", f"hist:{meth}")
+                return
     if ev[0] in ("unlock", "withunlock") and ia[0] == "ok":
         i = ev[1]
         for j, r in pv.items():
@@ -178,6 +183,22 @@ def witnesses(run, drv):
         run.oracle_fail("witness", {"program": "m0,m1 locked; L = LazyStackedTensorDict(m0, m1); L.is_locked -> True; m0.unlock_() -> accepted"},
                         "a member of a lazy stack that reports is_locked=True was unlocked on its own (the lock of a stack over already-locked members is only derived, no lock graph)",
                         "derived-lock-member-unlock")
+    else:
+        run.oracle_ok("witness")
+    # 1b. the same stack locked through share_memory_ (members first): must be a real lock, not a derived one
+    a0, a1 = T({"a": torch.zeros(2)}), T({"a": torch.zeros(2)})
+    S_ = LazyStackedTensorDict(a0, a1, stack_dim=0)
+    S_.share_memory_()
+    try:
+        a0.unlock_()
+        alone = True
+    except RuntimeError:
+        alone = False
+    model = parse_sx(drv.ask("(c05.run (ctor () ((a 1 0)) false) (ctor () ((a 2 0)) false) (lazy (0 1) false) (share 2) (unlock 0))"))
+    run.corr("witness", "lazy-share", [bool(S_.is_locked), S_._is_locked, alone], [model[3][1][2][1] == "L", True if model[3][1][2][2] == "t" else None, model[4][0] == "ok"])
+    if alone:
+        run.oracle_fail("witness", {"program": "S = LazyStackedTensorDict(a0, a1); S.share_memory_(); a0.unlock_() -> accepted"},
+                        "a member of a lazy stack locked by share_memory_() was unlocked on its own", "derived-lock-member-unlock:share_memory_")
     else:
         run.oracle_ok("witness")
     # 2. empty lazy stack inside a locked tree
